@@ -67,7 +67,11 @@ def run_case(case):
     else:
         lit_q = lit
     q = case['carrier'].format(lit_q)
-    pos = q.index(lit_q)
+    lead = case.get('lead')
+    if lead:
+        # another literal of the same kind earlier in the sentence ('500% ; 1,500%'): both must be read independently
+        q = (lead + ('%' if pct else '') + ' ; ') + q
+    pos = q.rindex(lit_q)
     model = models(culture)[1 if pct else 0]
     if case.get('pre'):
         # a previous call on the same (cached) model must not influence this one: first recognise a literal written in the OTHER
@@ -91,6 +95,12 @@ def run_case(case):
     sig_class = [culture, 'pct' if pct else 'num', form, 'neg' if case['neg'] else 'pos']
     bucket = ':'.join(sig_class)
     # the entity must cover the literal; like C01 the slice may carry blanks at its two ends
+    if lead:
+        # keep only the entity/entities that touch the literal under test; the leading literal must have its own, disjoint entity
+        others = [g for g in got if g['end'] < pos]
+        if len(others) != 1 or others[0]['end'] >= pos:
+            vs.append(V('LEADING_LITERAL_NOT_ONE_ENTITY', {'query': q, 'got': got}, bucket='LEAD:' + bucket))
+        got = [g for g in got if g['end'] >= pos]
     one = (len(got) == 1 and got[0]['start'] <= pos and got[0]['end'] >= pos + len(lit_q) - 1 and
            q[got[0]['start']:got[0]['end'] + 1].strip() == lit_q)
     if not one:
@@ -164,21 +174,22 @@ def int_strings():
 
 
 def cases(culture=None):
-    def mk(c, i, frac, grouped, neg, carrier_i, pct, thread, pre):
+    def mk(c, i, frac, grouped, neg, carrier_i, pct, thread, pre, lead):
         # keep the literal within 15 significant digits: beyond that the documented precision rounds it
         frac = frac[:max(0, 15 - len(i))]
-        return {'culture': c, 'int': i, 'frac': frac, 'grouped': grouped, 'neg': neg, 'carrier': CARRIERS[c][carrier_i % len(CARRIERS[c])], 'pct': pct, 'thread': thread, 'pre': pre}
+        return {'culture': c, 'int': i, 'frac': frac, 'grouped': grouped, 'neg': neg, 'carrier': CARRIERS[c][carrier_i % len(CARRIERS[c])], 'pct': pct, 'thread': thread, 'pre': pre, 'lead': lead}
     frac = st.one_of(st.just(''), st.just(''), st.text('0123456789', min_size=1, max_size=6))
     return st.builds(mk, st.sampled_from(CULTURES) if culture is None else st.just(culture), int_strings(), frac, st.booleans(),
                      st.sampled_from([False, False, True]), st.integers(0, 9), st.sampled_from([False, False, True]),
                      st.sampled_from([False, False, False, True]),
-                     st.one_of(st.none(), st.none(), st.none(), st.tuples(st.integers(1000, 9999999).map(str), st.text('0123456789', min_size=1, max_size=3))))
+                     st.one_of(st.none(), st.none(), st.none(), st.tuples(st.integers(1000, 9999999).map(str), st.text('0123456789', min_size=1, max_size=3))),
+                     st.one_of(st.none(), st.none(), st.none(), st.sampled_from(['500', '7', '12'])))
 
 
 def small_integers():
     for c in CULTURES:
         for n in range(10000):
-            yield {'culture': c, 'int': str(n), 'frac': '', 'grouped': False, 'neg': False, 'carrier': '{}' if n % 3 else 'x {} y', 'pct': False, 'thread': False, 'pre': None}
+            yield {'culture': c, 'int': str(n), 'frac': '', 'grouped': False, 'neg': False, 'carrier': '{}' if n % 3 else 'x {} y', 'pct': False, 'thread': False, 'pre': None, 'lead': None}
 
 
 def parts(tier, seed):
